@@ -209,14 +209,9 @@ namespace TrRouting
             else
             {
               usedOptimizationCases.push_back(1);
-              if (toJourneyStepIdx - fromJourneyStepIdx == 1)
-              {
-                journey.erase(journey.begin() + toJourneyStepIdx);
-              }
-              else if (toJourneyStepIdx - fromJourneyStepIdx > 1) // could not split correctly...
-              {
-                journey.erase(journey.begin() + fromJourneyStepIdx + 1, journey.begin() + toJourneyStepIdx);
-              }
+              // the transfer that followed the last removed leg now follows the shortened leg
+              journey[fromJourneyStepIdx].copyTransferTimeDistance(journey[toJourneyStepIdx]);
+              journey.erase(journey.begin() + fromJourneyStepIdx + 1, journey.begin() + toJourneyStepIdx + 1);
               journey[fromJourneyStepIdx].setFinalExitConnection(connection);
 
               break;
@@ -246,7 +241,9 @@ namespace TrRouting
             {
               usedOptimizationCases.push_back(2);
               journey[toJourneyStepIdx].setFinalEnterConnection(connection);
-              journey[toJourneyStepIdx].setTransferTimeDistance(0,0);
+              // boarding where the earlier leg alighted: same node transfer, legs in between are superfluous
+              journey[fromJourneyStepIdx].setTransferTimeDistance(0,0);
+              journey.erase(journey.begin() + fromJourneyStepIdx + 1, journey.begin() + toJourneyStepIdx);
               break;
             }
           }
@@ -275,7 +272,9 @@ namespace TrRouting
             {
               usedOptimizationCases.push_back(3);
               journey[fromJourneyStepIdx].setFinalExitConnection(connection);
-              journey[toJourneyStepIdx].setTransferTimeDistance(0,0);
+              // alighting where the later leg boards: same node transfer, legs in between are superfluous
+              journey[fromJourneyStepIdx].setTransferTimeDistance(0,0);
+              journey.erase(journey.begin() + fromJourneyStepIdx + 1, journey.begin() + toJourneyStepIdx);
               break;
             }
           }
@@ -293,6 +292,7 @@ namespace TrRouting
         int departureJourneyStepSequenceEndIdx   = journey[toJourneyStepIdx].getFinalExitConnection().value().get().getSequenceInTrip() - 1;
 
         std::optional<std::reference_wrapper<const Connection>> exitConnection;
+        bool appliedCss {false};
 
         {
           for(size_t sequenceIdx = arrivalJourneyStepTrip.reverseConnections.size() - 1 - arrivalJourneyStepSequenceEndIdx; sequenceIdx <= arrivalJourneyStepTrip.reverseConnections.size() - 1 - arrivalJourneyStepSequenceStartIdx; ++sequenceIdx)
@@ -321,6 +321,7 @@ namespace TrRouting
                 usedOptimizationCases.push_back(4);
                 journey[fromJourneyStepIdx].setFinalExitConnection(exitConnection.value());
                 journey[toJourneyStepIdx].setFinalEnterConnection(connection);
+                appliedCss = true;
               }
               else
               {
@@ -328,6 +329,12 @@ namespace TrRouting
                 break;
               }
             }
+          }
+          if (appliedCss)
+          {
+            // transfer at the common node: same node transfer, legs in between are superfluous
+            journey[fromJourneyStepIdx].setTransferTimeDistance(0,0);
+            journey.erase(journey.begin() + fromJourneyStepIdx + 1, journey.begin() + toJourneyStepIdx);
           }
         }
 
